@@ -8,8 +8,8 @@ ID = "C08"
 RULE = ("API sweep: every function of the registry (tools/vlib/registry.py: %d public array-taking functions of mahotas, "
         "mahotas.labeled, .morph, .features, .segmentation, .polygon, .interpolate, .thresholding, .colors) x generated inputs in "
         "its documented domain x every array argument position x 9 memory layouts (C, Fortran, strided, negative stride, offset, "
-        "transposed, read-only, cropped columns, every second row) and the non-native byte order (which a function may refuse with "
-        "an exception but may not silently misread): the result must equal the C-contiguous result (bit-identical for boolean/integer results, 1e-9 "
+        "transposed, read-only, cropped columns, every second row) the non-native byte order and a misaligned view (a field of a packed record) -- "
+        "which a function may refuse with an exception but may not silently misread --: the result must equal the C-contiguous result (bit-identical for boolean/integer results, 1e-9 "
         "relative for real-valued results), the arguments must be bitwise unchanged, and the call repeated in fresh worker "
         "processes with MALLOC_PERTURB_ in {85,170,255} after pre-dirtying freed blocks must return the same value. All calls run "
         "in isolated workers. Non-trivial: the call returned a value (not an exception) for the C layout" % len(R.REG))
@@ -39,7 +39,7 @@ def build_requests(case):
     for kind, key in arr_positions(args, kwargs):
         if kind == "a" and key in e.nolayout:
             continue
-        for lay in LAYOUTS[1:] + ["swapped"]:
+        for lay in LAYOUTS[1:] + ["swapped", "unaligned"]:
             if kind == "a" and key in e.inplace_args and lay == "readonly":
                 continue        # a canvas that is drawn on must be writable: rejecting a read-only one is correct
             lays = ["C"] * len(args)
@@ -129,8 +129,8 @@ def run_case(ctx, case):
         o = get(r["id"], None)
         if o is None or "crash" in o or "hang" in o:
             return Result(False, True, {"why": "%s crashed or hung with layout %s" % (e.name, r["id"]), "outcome": o})
-        if r["id"].endswith(":swapped") and o.get("exc") is not None:
-            continue        # the other byte order may be refused with an exception; it may not change a result (below)
+        if r["id"].endswith((":swapped", ":unaligned")) and o.get("exc") is not None:
+            continue        # the other byte order / a misaligned view may be refused with an exception; it may not change a result
         if (o.get("exc") is None) != (base.get("exc") is None):
             return Result(False, True, {"why": "%s: layout %s changes whether the call succeeds" % (e.name, r["id"]),
                                         "C": base.get("exc"), "other": o.get("exc"), "msg": o.get("msg") or base.get("msg")})
